@@ -25,8 +25,11 @@ import (
 	"fmt"
 	"math/big"
 	"os"
+	"os/exec"
+	"path/filepath"
 	"runtime"
 	"sort"
+	"strings"
 	"sync"
 	"sync/atomic"
 	"time"
@@ -671,6 +674,12 @@ func reqKinds() []reqKind {
 			l = append(l, reqKind{fmt.Sprintf("%s/%02x", n, h), p, h})
 		}
 	}
+	// requests for which BIP341 defines no digest (SIGHASH_SINGLE without a matching
+	// output arises from the kinds above on the shapes with fewer outputs than inputs)
+	for _, h := range []uint32{0x04, 0x84, 0xff} {
+		l = append(l, reqKind{fmt.Sprintf("tapkey/%02x", h), 1, h})
+	}
+	l = append(l, reqKind{"tapscript/04", 2, 0x04})
 	return l
 }
 
@@ -716,19 +725,24 @@ func orderShapes() []shape {
 
 // runSeq serves one request sequence on one object; idxMode 0: all requests for
 // input 0; 1: request j for input j mod nIn; 2: reversed.
-func runSeq(s shape, kinds []reqKind, seq []int, idxMode int) (key, what string, idxs []int) {
+func seqIdx(idxMode, j, nin int) int {
+	switch idxMode {
+	case 1:
+		return j % nin
+	case 2:
+		return nin - 1 - j%nin
+	}
+	return 0
+}
+
+func runSeq(s shape, kinds []reqKind, seq []int, idxMode int, step *int32) (key, what string, idxs []int) {
 	g := toGocoin(s.tx, s.spent)
 	nin := len(s.tx.In)
 	for j, ki := range seq {
-		idx := 0
-		switch idxMode {
-		case 1:
-			idx = j % nin
-		case 2:
-			idx = (nin - 1 - j%nin)
-		}
+		idx := seqIdx(idxMode, j, nin)
 		idxs = append(idxs, idx)
 		k := kinds[ki]
+		atomic.StoreInt32(step, int32(j))
 		got, pan := serve(g, k, idx, s.spent[idx].Value)
 		if pan != "" {
 			return "order/panic:" + short(pan), "digest request panicked: " + pan, idxs
@@ -747,8 +761,70 @@ func runSeq(s shape, kinds []reqKind, seq []int, idxMode int) (key, what string,
 	return "", "", idxs
 }
 
+// A digest request takes microseconds; one that has not returned after seqWatchdog
+// (generous for a loaded machine) is confirmed once in a fresh process before it is
+// reported as a request that never returns.
+var (
+	seqWatchdog     = 30 * time.Second
+	confirmWatchdog = 15 * time.Second
+)
+
+type hangBook struct {
+	mu        sync.Mutex
+	state     map[string]string // key -> confirmed | unreproducible
+	culprits  sync.Map          // kind name whose request leaves the object unusable -> true
+	skipped   int64
+	unrepro   []string
+	confirmed int64
+}
+
+type seqResult struct {
+	key, what string
+	idxs      []int
+}
+
+// hangKey names the violation after the earlier request (if any) for which no digest is
+// defined: that is the request after which the object stops answering.
+func hangKey(s shape, kinds []reqKind, seq []int, idxMode int, step int) (key, culprit string) {
+	nin := len(s.tx.In)
+	for j := step - 1; j >= 0; j-- {
+		k := kinds[seq[j]]
+		if _, ok := refServe(s.tx, s.spent, k, seqIdx(idxMode, j, nin)); !ok {
+			what := fmt.Sprintf("ht=%02x", k.ht)
+			if refhash.ValidTaprootHashType(byte(k.ht)) {
+				what = "single-without-output"
+			}
+			return "order/taproot/" + what + "/later-request-never-returns", k.name
+		}
+	}
+	return "order/" + kinds[seq[step]].name + "/request-never-returns", ""
+}
+
+// confirmInFreshProcess replays the sequence in a child of this binary.
+func confirmInFreshProcess(cj caseJ, key string) bool {
+	dir := ev.Scratch("c02-confirm")
+	defer os.RemoveAll(dir)
+	f := filepath.Join(dir, "seq.json")
+	b, _ := json.Marshal(map[string]interface{}{"key": key, "replay": cj})
+	if err := os.WriteFile(f, b, 0o644); err != nil {
+		ev.HarnessError("%v", err)
+	}
+	cmd := exec.Command(os.Args[0], "--replay", f)
+	cmd.Env = append(os.Environ(), "C02_REPLAY_WATCHDOG="+confirmWatchdog.String())
+	out, _ := cmd.CombinedOutput()
+	return strings.Contains(string(out), "never returns")
+}
+
 func familyOrder(r *ev.Run, c *counters, samples *ev.Samples) (seqs int64, served map[string]bool) {
 	kinds := reqKinds()
+	hb := &hangBook{state: map[string]string{}}
+	defer func() {
+		if hb.skipped > 0 {
+			samples.Add(map[string]interface{}{"family": "iii", "sequences_skipped_after_a_confirmed_never-returning_request": hb.skipped})
+			r.Capped = true // not exhaustive: the rest of the sequences through that request cannot be executed
+		}
+		r.Unrepro = append(r.Unrepro, hb.unrepro...)
+	}()
 	maxLen := 3
 	if r.Thorough() {
 		maxLen = 4
@@ -773,7 +849,61 @@ func familyOrder(r *ev.Run, c *counters, samples *ev.Samples) (seqs int64, serve
 						if mode > 0 && len(s.tx.In) == 1 {
 							continue
 						}
-						k, what, idxs := runSeq(s, kinds, j.seq, mode)
+						// sequences through a request already confirmed to wedge the object are not executed
+						skip := false
+						for _, ki := range j.seq[:len(j.seq)-1] {
+							if _, bad := hb.culprits.Load(kinds[ki].name); bad {
+								skip = true
+							}
+						}
+						if skip {
+							atomic.AddInt64(&hb.skipped, 1)
+							continue
+						}
+						var step int32
+						resCh := make(chan seqResult, 1)
+						seq := j.seq
+						go func() {
+							k, what, idxs := runSeq(s, kinds, seq, mode, &step)
+							resCh <- seqResult{k, what, idxs}
+						}()
+						var k, what string
+						var idxs []int
+						timer := time.NewTimer(seqWatchdog)
+						select {
+						case x := <-resCh:
+							timer.Stop()
+							k, what, idxs = x.key, x.what, x.idxs
+						case <-timer.C:
+							st := int(atomic.LoadInt32(&step))
+							key, culprit := hangKey(s, kinds, seq, mode, st)
+							var rq []reqJ
+							for i := 0; i <= st; i++ {
+								rq = append(rq, reqJ{kinds[seq[i]].name, seqIdx(mode, i, len(s.tx.In))})
+							}
+							cj := caseJ{Family: "order", Tx: s.tx.Serialize(true), Spent: spentToJ(s.spent), Seq: rq, Label: s.name}
+							hb.mu.Lock()
+							stt := hb.state[key]
+							if stt == "" {
+								if confirmInFreshProcess(cj, key) {
+									stt = "confirmed"
+									hb.confirmed++
+								} else {
+									stt = "unreproducible"
+									hb.unrepro = append(hb.unrepro, fmt.Sprintf("%s: request %d of %v on %s did not return within %v but returned in a fresh process", key, st, rq, s.name, seqWatchdog))
+								}
+								hb.state[key] = stt
+							}
+							hb.mu.Unlock()
+							if stt == "confirmed" {
+								if culprit != "" {
+									hb.culprits.Store(culprit, true)
+								}
+								c.report(1<<60+j.n, key, fmt.Sprintf("request %d (%s, input %d) on one transaction object never returns (no answer within %v, confirmed in a fresh process); requests served before it on that object: %v", st, rq[st].Kind, rq[st].Idx, seqWatchdog, rq[:st]), cj)
+							}
+							atomic.AddInt64(&n, 1)
+							continue
+						}
 						atomic.AddInt64(&n, 1)
 						if k != "" {
 							var rq []reqJ
@@ -1517,7 +1647,30 @@ func replay(file string) {
 			if kd == nil {
 				ev.HarnessError("unknown request kind %q", rq.Kind)
 			}
-			got, pan := serve(g, *kd, rq.Idx, spent[rq.Idx].Value)
+			wd := seqWatchdog
+			if v := os.Getenv("C02_REPLAY_WATCHDOG"); v != "" {
+				if d, err := time.ParseDuration(v); err == nil {
+					wd = d
+				}
+			}
+			type ans struct {
+				got []byte
+				pan string
+			}
+			ch := make(chan ans, 1)
+			go func() {
+				got, pan := serve(g, *kd, rq.Idx, spent[rq.Idx].Value)
+				ch <- ans{got, pan}
+			}()
+			var got []byte
+			var pan string
+			select {
+			case a := <-ch:
+				got, pan = a.got, a.pan
+			case <-time.After(wd):
+				fmt.Fprintf(ev.Out, "  request %d %s input %d on the shared object never returns (no answer within %v)\n", j, rq.Kind, rq.Idx, wd)
+				fail(rec.Key, "request never returns")
+			}
 			fresh, _ := serve(toGocoin(t, spent), *kd, rq.Idx, spent[rq.Idx].Value)
 			want, ok := refServe(t, spent, *kd, rq.Idx)
 			fmt.Fprintf(ev.Out, "  request %d %s input %d: shared %x fresh %x reference %x (defined=%v) %s\n", j, rq.Kind, rq.Idx, got, fresh, want, ok, pan)
